@@ -293,8 +293,12 @@ pub async fn mpc(
     tmp_dir: Option<&Path>,
 ) -> Result<Vec<bool>, Error> {
     let p_fpre = Preprocessor::Untrusted;
+    // The output parties are a set: a repeated index must not result in repeated messages.
+    let mut p_out = p_out.to_vec();
+    p_out.sort_unstable();
+    p_out.dedup();
     let ctx = Context::new(
-        channel, circuit, inputs, p_fpre, p_eval, p_own, p_out, tmp_dir,
+        channel, circuit, inputs, p_fpre, p_eval, p_own, &p_out, tmp_dir,
     );
     _mpc(&ctx).await
 }
